@@ -60,3 +60,17 @@ package upgrader
 //@ ensures ret(Upgrade, 0, 1) != nil ==> ghost.done(connScope) && ghost.closed(maconn)
 //@ ensures ret(Upgrade, 0, 1) == nil ==> sent(l.incoming) || (called(CloseWithError, 0) && arg(CloseWithError, 0, 0) == conn)
 //@ noframe
+
+// Every way of tearing down an upgraded connection releases its resource scope (C04: usage returns to what it
+// was before the connection was opened whichever close call the owner uses).
+//@ func (t *transportConn) Close
+//@ prop C04
+//@ ensures called(Done, 0) && arg(Done, 0, 0) == old(t.scope)
+//@ ensures ghost.done(old(t.scope))
+//@ noframe
+
+//@ func (t *transportConn) CloseWithError
+//@ prop C04
+//@ ensures called(Done, 0) && arg(Done, 0, 0) == old(t.scope)
+//@ ensures ghost.done(old(t.scope))
+//@ noframe
